@@ -40,7 +40,7 @@ type Expect struct {
 type Mutation struct {
 	Kind  string `json:"kind"` // motd sid pq fw prompt comment pm proposal fprompt fs ff fq hdr block eot
 	Nth   int    `json:"nth"`  // which emission of that kind (0-based)
-	Op    string `json:"op"`   // drop dup trunc replace setbyte insert append field nocr
+	Op    string `json:"op"`   // drop dup trunc replace setbyte insert append field nocr stop
 	Arg   int    `json:"arg,omitempty"`
 	Val   int    `json:"val,omitempty"`
 	Bytes []byte `json:"bytes,omitempty"`
@@ -169,6 +169,7 @@ func (p *peer) emit(kind string, b []byte) error {
 	n := p.emits[kind]
 	p.emits[kind]++
 	outs := [][]byte{b}
+	stop := false
 	for _, m := range p.cfg.Mut {
 		if m.Kind != kind || m.Nth != n {
 			continue
@@ -226,10 +227,42 @@ func (p *peer) emit(kind string, b []byte) error {
 			outs[0] = []byte(strings.Join(fs, " ") + "\r")
 		case "nocr":
 			outs[0] = bytes.TrimSuffix(cur, []byte("\r"))
+		case "stop":
+			// the station goes away in the middle of this unit: Arg bytes of it
+			// are sent (negative: counted from its end), or, with Bytes set, what
+			// precedes and includes the Arg-th occurrence of Bytes[0]
+			k := m.Arg
+			if len(m.Bytes) > 0 {
+				k, seen := len(cur), 0
+				for i, c := range cur {
+					if c == m.Bytes[0] {
+						if seen == m.Arg {
+							k = i + 1
+							break
+						}
+						seen++
+					}
+				}
+				outs[0] = cur[:k]
+			} else {
+				if k < 0 {
+					k += len(cur)
+				}
+				if k < 0 {
+					k = 0
+				}
+				if k < len(cur) {
+					outs[0] = cur[:k]
+				}
+			}
+			stop = true
 		}
 		if len(outs) == 0 {
 			break
 		}
+	}
+	if stop {
+		defer func() { p.res.Stopped = "left mid-stream as planned" }()
 	}
 	for _, o := range outs {
 		if len(o) == 0 {
@@ -242,8 +275,13 @@ func (p *peer) emit(kind string, b []byte) error {
 			return err
 		}
 	}
+	if stop {
+		return errLeft
+	}
 	return nil
 }
+
+var errLeft = errors.New("left mid-stream as planned")
 
 func (p *peer) line(kind, s string) error {
 	p.logf("> %s", s)
